@@ -32,6 +32,18 @@ func verifC08Check(b []byte) {
 		verifReach("end")
 		return
 	}
+	// a second decoding of the same bytes (from a buffer of its own) shares no memory with the first
+	if q, qerr := FromBytes(append([]byte(nil), b...)); qerr == nil {
+		for c1, v1 := range p.Options {
+			for c2, v2 := range q.Options {
+				_ = c1
+				_ = c2
+				verifAssert(!verifAliases(v1, v2), "two-decoded-packets-share-no-memory")
+			}
+		}
+		verifAssert(!verifShares(p, q), "two-decoded-packets-share-no-memory")
+	}
+	verifAssert(!verifShares(p, b), "decoded-packet-shares-no-memory-with-the-source-buffer")
 	s0 := append([]byte(nil), p.ToBytes()...)
 	verifObserveInt("len", len(s0))
 	verifHavoc("scribble-in", b)
@@ -43,6 +55,9 @@ func verifC08Check(b []byte) {
 	}
 	verifAssert(!verifAliases(p.ClientHWAddr, b), "chaddr-does-not-alias-the-source-buffer")
 	verifAssert(!verifAliases(p.ClientIPAddr, b), "ciaddr-does-not-alias-the-source-buffer")
+	verifAssert(!verifAliases(p.YourIPAddr, b), "yiaddr-does-not-alias-the-source-buffer")
+	verifAssert(!verifAliases(p.ServerIPAddr, b), "siaddr-does-not-alias-the-source-buffer")
+	verifAssert(!verifAliases(p.GatewayIPAddr, b), "giaddr-does-not-alias-the-source-buffer")
 	// output side
 	verifHavoc("scribble-out", s1)
 	s2 := p.ToBytes()
